@@ -161,7 +161,7 @@ def run_shards(fn, nshards=None, **kw):
 import re as _re
 
 SAN_ENV = {
-    'ASAN_OPTIONS': 'detect_leaks=0:abort_on_error=0:exitcode=77:allocator_may_return_null=1:handle_abort=1:symbolize=1:detect_stack_use_after_return=0',
+    'ASAN_OPTIONS': 'detect_leaks=0:abort_on_error=0:exitcode=77:allocator_may_return_null=1:handle_abort=1:symbolize=1:detect_stack_use_after_return=0:hard_rss_limit_mb=8000',
     'UBSAN_OPTIONS': 'print_stacktrace=1:halt_on_error=1:exitcode=77:symbolize=1',
 }
 
